@@ -17,7 +17,9 @@ RULE = (
     "case = one history of 5-150 operations (add, stop, verified, not-inferrable, next, drain, "
     "do_level, poll-after-exhaustion) on a real DefaultQueue over a pack of opaque strategy tokens "
     "(0-2 inferral, 0-3 initial, 0-3 expansion sets of 0-3 strategies) and 1-12 labels, always ended "
-    "by a full drain so that the completeness clause is evaluated. non-trivial = >= 3 labels "
+    "by a full drain so that the completeness clause is evaluated. The thorough tier adds a small-scope "
+    "exhaustive layer: every history of 1-5 operations from {add, stop, not-inferrable} x 2 labels, next, "
+    "do_level, over four pack shapes (149 792 histories), each followed by a full drain. non-trivial = >= 3 labels "
     "completed all stages, at least one external stop and one exhaustion; distinct = histories"
 )
 LEVEL_TEXT = (
@@ -40,7 +42,8 @@ FLOORS = {
     "thorough": {"nontrivial": 10000, "counters": {"queue.handouts_checked": 1000000,
                                                     "queue.exhaustions_checked": 100000,
                                                     "queue.do_level_completed": 20000,
-                                                    "queue.do_level_ran_dry": 6000}},
+                                                    "queue.do_level_ran_dry": 6000,
+                                                    "c16.exhaustive_histories": 149792}},
 }
 # W5: the repository's own test suite runs once under these ambient monitors (thorough tier)
 W5_MONITORS = ['queue']
